@@ -17,11 +17,12 @@ pub assume_specification [ <std::io::Error>::kind ] (e: &std::io::Error) -> (k: 
 pub assume_specification [ <std::io::ErrorKind as core::cmp::PartialEq>::eq ] (a: &std::io::ErrorKind, b: &std::io::ErrorKind) -> (r: bool)
     ensures r == (*a == *b);
 
-//@trusted vfile_read_exact: read_exact(buf) leaves the file unchanged; Ok iff pos+len <= |bytes| (then buf = that slice and pos advances); Err(UnexpectedEof) only when the file is too short; any other Err models an I/O failure
+//@trusted vfile_read_exact: read_exact(buf) leaves the file unchanged; Ok iff pos+len <= |bytes| (then buf = that slice and pos advances); a file is shorter than 2^63 bytes; Err(UnexpectedEof) only when the file is too short; any other Err models an I/O failure
 #[verifier::external_body]
 pub fn vfile_read_exact(f: &mut std::fs::File, buf: &mut [u8]) -> (r: std::io::Result<()>)
     ensures
         file_bytes(final(f)) == file_bytes(old(f)),
+        file_bytes(old(f)).len() <= 0x7fff_ffff_ffff_ffff,
         final(buf)@.len() == old(buf)@.len(),
         r is Ok ==> file_pos(old(f)) + old(buf)@.len() <= file_bytes(old(f)).len()
             && final(buf)@ == file_bytes(old(f)).subrange(file_pos(old(f)) as int, (file_pos(old(f)) + old(buf)@.len()) as int)
